@@ -45,7 +45,10 @@ func localKeys(n *simnode.Node) map[string][]byte {
 				break
 			}
 		}
-		if !skip {
+		// In the local database an empty value IS the delete marker (list and
+		// count helpers skip it, and a zero counter encodes to zero bytes), so a
+		// key holding an empty value answers every query like an absent key.
+		if !skip && len(kv.V) > 0 {
 			out[string(kv.K)] = kv.V
 		}
 	}
